@@ -109,6 +109,8 @@ func serve(req *sb.Req) (resp *sb.Resp) {
 		return &sb.Resp{Status: "ok"}
 	case "parse":
 		return opParse(req)
+	case "sexpr":
+		return opSexpr(req)
 	case "parsebatch":
 		return opParseBatch(req)
 	case "exec":
@@ -305,4 +307,50 @@ func opParseBatch(req *sb.Req) *sb.Resp {
 		})
 	}
 	return resp
+}
+
+// opSexpr parses "{{ e }}" sources and returns the grouping of the printed
+// expression as an s-expression with GroupExpr nodes erased.
+func opSexpr(req *sb.Req) *sb.Resp {
+	resp := &sb.Resp{Status: "ok", Items: make([]sb.Item, len(req.Strs))}
+	for i, src := range req.Strs {
+		src := src
+		resp.Items[i] = guard(func() sb.Item {
+			tree, err := parse.Parse(src)
+			if err != nil {
+				return sb.Item{Status: "error", Msg: err.Error()}
+			}
+			for _, n := range tree.Root().All() {
+				if p, ok := n.(*parse.PrintNode); ok {
+					return sb.Item{Status: "ok", S: sexpr(p.X)}
+				}
+			}
+			return sb.Item{Status: "error", Msg: "no print node"}
+		})
+	}
+	return resp
+}
+
+func sexpr(e parse.Expr) string {
+	switch x := e.(type) {
+	case *parse.GroupExpr:
+		return sexpr(x.X)
+	case *parse.NameExpr:
+		return x.Name
+	case *parse.NumberExpr:
+		return x.Value
+	case *parse.StringExpr:
+		return "'" + x.Text + "'"
+	case *parse.UnaryExpr:
+		return "(u" + x.Op + " " + sexpr(x.X) + ")"
+	case *parse.BinaryExpr:
+		return "(" + x.Op + " " + sexpr(x.Left) + " " + sexpr(x.Right) + ")"
+	case *parse.TernaryIfExpr:
+		return "(? " + sexpr(x.Cond) + " " + sexpr(x.TrueX) + " " + sexpr(x.FalseX) + ")"
+	case *parse.TestExpr:
+		return "<" + x.Name + ">"
+	case nil:
+		return "<nil>"
+	}
+	return fmt.Sprintf("<%T>", e)
 }
